@@ -212,6 +212,23 @@ class Engine:
         return loc
 
     def step(self, frame, loc, p):
+        # sub-slice views: ("sl", start, length) narrows a location; an index on a view is an index on its parent
+        if isinstance(p, (list, tuple)) and p and p[0] == "sl":
+            if loc[0] == "slice":
+                if p[1] + p[2] > loc[3]:
+                    return None
+                return ("slice", loc[1], loc[2] + p[1], p[2])
+            return ("slice", loc, p[1], p[2])
+        if loc[0] == "slice":
+            idx = None
+            if isinstance(p, (list, tuple)) and p[0] == "ci":
+                idx = p[1]
+            elif isinstance(p, (list, tuple)) and p[0] == "i" and frame is not None:
+                iv = frame.cell(p[1]).v
+                idx = iv if isinstance(iv, int) and not isinstance(iv, bool) else None
+            if idx is None or not (0 <= idx < loc[3]):
+                return None
+            return ("field", loc[1], loc[2] + idx, str(loc[2] + idx))
         if p == "*":
             v = self.get(loc)
             if isinstance(v, Ref):
@@ -249,6 +266,11 @@ class Engine:
             return TOP
         if loc[0] == "cell":
             return loc[1].v
+        if loc[0] == "slice":
+            pv = self.get(loc[1])
+            if isinstance(pv, Obj) and pv.adt == "array" and all((loc[2] + i) in pv.fields for i in range(loc[3])):
+                return Obj(adt="array", fields={i: pv.fields[loc[2] + i] for i in range(loc[3])})
+            return TOP
         _, parent, idx, fname = loc
         pv = self.get(parent)
         if isinstance(pv, Obj):
@@ -265,6 +287,8 @@ class Engine:
         if loc[0] == "cell":
             loc[1].v = v
             return
+        if loc[0] == "slice":
+            return          # whole-view stores are not modelled
         _, parent, idx, fname = loc
         pv = self.get(parent)
         if fname in self.transparent and (isinstance(pv, Q) or (isinstance(pv, Obj) and pv.name is not None and not pv.fields)):
